@@ -57,6 +57,10 @@ type faultCase struct {
 	// of files, Config.WaitAndConnectToInput): each Data step is appended after its
 	// DelayMs; the end-of-file results are the file system's own
 	Growing bool `json:"growing_file,omitempty"`
+	// the same file handler object served an earlier input first (a fresh message
+	// channel is put into its exported MessageChan field for the new input): an input
+	// that it gave up on after end-of-file results beyond its tolerance
+	HandlerUsedBefore bool `json:"file_handler_served_an_earlier_input,omitempty"`
 	// unrelated settings of the same configuration: they must not matter
 	ReadTimeoutMs uint   `json:"read_timeout_ms,omitempty"`
 	SleepOpenMs   uint   `json:"sleep_after_failed_open_ms,omitempty"`
@@ -330,6 +334,16 @@ func runFaultScript(k faultCase) faultObs {
 	}
 	ch := make(chan handler.Message, 4)
 	fh := filehandler.New(ch, cfg)
+	if k.HandlerUsedBefore {
+		ch0 := make(chan handler.Message, 4)
+		fh = filehandler.New(ch0, cfg)
+		go func() {
+			for range ch0 {
+			}
+		}()
+		fh.Handle(fixedStart, bufio.NewReader(&scriptReader{steps: []step{{Data: "d3001443"}, {Fault: "eof"}}}))
+		fh.MessageChan = ch
+	}
 	var obs faultObs
 	done := make(chan struct{})
 	go func() {
@@ -635,6 +649,21 @@ func monC13(c *child.Ctx, replay json.RawMessage) {
 				c.Count("scripts_with_retry_pause_longer_than_tolerance", 1)
 				add(faultCase{Steps: mk(pos, []string{faultKinds[r.Intn(len(faultKinds))]}), TimeoutMs: uint(cfg[1]), WaitMs: uint(cfg[0]), Tolerant: true, Note: fmt.Sprintf("one fault after byte %d, retry pause %d ms, tolerance %d ms", pos, cfg[0], cfg[1])}, inside[pos])
 			}
+		}
+		// ... and with that configuration a SECOND fault right after the pause means the
+		// source has been silent for longer than the tolerance: the handler stops there
+		if si%3 == 1 || c.Thorough() {
+			pos := r.Range(0, len(data))
+			c.Count("stop_scripts_pause_longer_than_tolerance", 1)
+			add(faultCase{Steps: mk(pos, []string{"eof", "eof"}), TimeoutMs: 100, WaitMs: 300, StopAfter: pos, WantErrKind: "eof", Note: fmt.Sprintf("two faults after byte %d with a retry pause of 300 ms and a tolerance of 100 ms: silent beyond the tolerance", pos)}, inside[pos])
+		}
+		// the file handler object itself has served an earlier input (which it gave up on);
+		// the new input begins with an interruption, or has one inside a frame
+		if si%2 == 1 || c.Thorough() {
+			pos := []int{0, 0, r.Range(0, len(data))}[r.Intn(3)]
+			f := faultKinds[r.Intn(len(faultKinds))]
+			c.Count("scripts_on_a_file_handler_that_served_an_earlier_input", 1)
+			add(faultCase{Steps: mk(pos, []string{f}), TimeoutMs: tolMs, WaitMs: 1, Tolerant: true, HandlerUsedBefore: true, Note: fmt.Sprintf("single %s after byte %d; the same file handler object gave up on an earlier input before", f, pos)}, inside[pos])
 		}
 		// after an interruption the source answers "nothing yet" (0 bytes, no error) a
 		// hundred times or more before the data continues: no error was reported, so
